@@ -28,9 +28,10 @@ def run_replay(doc):
         return None, 'no replay recipe for this obligation'
     payload = json.dumps({'inputs': doc.get('inputs'), 'witness': doc.get('witness')})
     try:
-        r = subprocess.run([exe] + args, input=payload, capture_output=True, text=True, timeout=120)
+        tmo = int(doc.get('timeout') or 120)
+        r = subprocess.run([exe] + args, input=payload, capture_output=True, text=True, timeout=tmo)
     except subprocess.TimeoutExpired:
-        return True, 'replay timed out after 120 s (treated as a confirmed non-termination / blow-up)'
+        return (None if doc.get('timeout') else True), 'replay timed out after %d s%s' % (tmo, '' if doc.get('timeout') else ' (treated as a confirmed non-termination / blow-up)')
     text = (r.stdout + r.stderr).strip()
     if r.returncode == 1:
         return True, text
